@@ -599,6 +599,12 @@ def random_cases(tier, rng):
             for sd in seeds[: (2 if tier == "quick" else 12)]:
                 smp = next(samp_cycle)
                 cases.append((list(sh), None, nnz, sd, next(fmt_cycle), fills(smp, next(fill_cycle)), None, smp))
+    # logical sizes beyond 2**31 / 2**32 with a handful of stored elements: flat positions must be carried in intp through
+    # the sampling kernels and the unravelling (seeded C19-m5: an int32 position buffer in algD)
+    for sh in [(2**20, 2**12), (2**11, 2**11, 2**11), (2**33 + 7,), (3, 2**31 + 1), (2**21, 2**21, 2**20)]:
+        for nnz in (2, 3, 7, 40):
+            for sd in seeds[: (2 if tier == "quick" else 8)]:
+                cases.append((list(sh), None, nnz, sd, "coo", None, None, "arange"))
     # default density (0.01), no nnz
     for sh in [(5, 8), (30, 40), (1000,), ()]:
         for sd in seeds[:3]:
@@ -662,6 +668,11 @@ def kernel_cases(tier, rng):
         N = rng.randrange(23, 5000)
         n = rng.randrange(1, max(2, N // 10))
         cases.append(("algD", "c", n, N, rng.randrange(1 << 30)))
+    # compiled kernels with N beyond 2**31 / 2**32 / 2**62 (positions must not be narrowed anywhere)
+    for N in (2**31 + 5, 2**32 + 1, 2**33, 2**40 + 3, 2**62):
+        for n in (2, 3, 9, 50):
+            for _ in range(2 if tier == "quick" else 10):
+                cases.append(("algD", "c", n, N, rng.randrange(1 << 30)))
     # int(elements * density)
     els = list(range(0, 60)) + [100, 1000, 1200, 999983, 10**6 + 7, 2**40 + 3, 2**53 - 1, 2**53 + 1, 2**60 + 12345]
     ds = [k / 100 for k in range(0, 101)] + [rng.random() for _ in range(60)] + [1e-300, 5e-324, 0.999999999999]
